@@ -331,7 +331,7 @@ def gen_case(rng: random.Random, tier: str, bias: str = ''):
         tree = rng.choice(boundary_trees(nreq))
     else:
         tree = _gen_tree(rng, rng.choice([0, 1, 2, 2, 3] if not big else [1, 2, 3, 3]), [0], nreq, bias)
-    early = rng.choice([0.0, 0.0, 0.02, 0.05])
+    early = rng.choice([0.0, 0.02, 0.05, 0.2])
     ch = rng.choice([('random', early), ('random', early), ('sticky', 0.2, early), ('sticky', 0.05, early),
                      ('pct', 2, 800, early), ('pct', 3, 800, early)])
     return dict(tree=tree, callers=callers, nreq=nreq, cap=rng.choice([1, 2, 3, 8, 8]),
@@ -342,13 +342,18 @@ def f2_case(rng: random.Random):
     """the scenario class of F2: a fail-fast ensemble with a fast failing member and a slow sibling,
     sequential requests from one caller (so that a released future's id can be handed out again)"""
     n = rng.choice([3, 4, 5])
-    slow = [rng.choice([6, 12, 30]) for _ in range(n + 1)]
     fail = sorted(set([1] + [r for r in range(2, n + 1) if rng.random() < 0.3]))
+    # the sibling is slow on exactly the requests whose other member fails fast: its late result is
+    # still on its way when a later request is minted
+    slow = [rng.choice([40, 100, 300]) if r in fail else rng.choice([0, 1, 2]) for r in range(n + 1)]
     tree = dict(k='e', ff=True, ch=[
         dict(k='w', mark=1, bs=0, nw=1, pre=False, pf=[], cf=fail, bp=[], wait=0, dur=[0] * (n + 1)),
         dict(k='w', mark=2, bs=0, nw=rng.choice([2, 3]), pre=False, pf=[], cf=[], bp=[], wait=0, dur=slow)])
     callers = [dict(kind='call', reqs=[dict(r=r, delay=0, timeout=FOREVER, bp=False) for r in range(1, n + 1)])]
-    ch = rng.choice([('random', 0.0), ('sticky', 0.2, 0.0), ('pct', 2, 800, 0.0)])
+    # the ensemble's dequeue thread polls with a (virtual) sleep: it overtakes the slow member only if
+    # that timer may fire while other threads are still runnable
+    early = rng.choice([0.05, 0.2])
+    ch = rng.choice([('random', early), ('sticky', 0.2, early), ('pct', 2, 800, early)])
     return dict(tree=tree, callers=callers, nreq=n, cap=8, adversarial_id=True, chooser=list(ch),
                 seed=rng.randrange(1 << 30))
 
@@ -427,6 +432,17 @@ def run_case(case):
     tree = case['tree']
 
     allq = []
+    keepalive = []
+
+    def logitem(item):
+        # (uid, value code, id of the value object).  Exception objects are NOT kept: once raised at
+        # the caller their traceback refers to the request's future, and keeping them alive would
+        # deny the identity allocator the reuse it is entitled to.  Plain values are kept so that
+        # their ids stay unique for the duration of the run (call arguments are matched by id).
+        u, y = item
+        if not is_exc(y):
+            keepalive.append(y)
+        return (u, enc(y), id(y))
 
     class LogQ(_wkmod._SimpleThreadQueue):
         def __init__(self):
@@ -436,14 +452,14 @@ def run_case(case):
         def put(self, item, *a, **kw):
             if isinstance(item, tuple) and len(item) == 2:
                 t = threading.current_thread()
-                qlog.append(('put', id(self), t.name, t.ident, item))
+                qlog.append(('put', id(self), t.name, t.ident, logitem(item)))
             return super().put(item, *a, **kw)
 
         def get(self, *a, **kw):
             item = super().get(*a, **kw)
             if isinstance(item, tuple) and len(item) == 2:
                 t = threading.current_thread()
-                qlog.append(('get', id(self), t.name, t.ident, item))
+                qlog.append(('get', id(self), t.name, t.ident, logitem(item)))
             return item
 
     def make_worker(t, path):
@@ -539,7 +555,10 @@ def run_case(case):
     def record(r, out, e=None):
         outcomes.setdefault(r, []).append(out)
         if e is not None:
-            excs[r] = e
+            # judge the traceback now and keep only the verdict: a stored exception would keep its
+            # traceback frames — and through them the request's future — alive, which would deny the
+            # identity allocator the reuse it is legally entitled to
+            excs[r] = (check_traceback(e), repr(e))
         ev.append(('outcome', r) + tuple(out))
 
     def main():
@@ -571,6 +590,7 @@ def run_case(case):
                         record(r, ('timeout', int(q['timeout'] >= FOREVER)))
                     except BaseException as e:  # noqa
                         record(r, ('val', enc(e)), e)
+                        del e
 
                 def caller(spec):
                     if spec['kind'] == 'call':
@@ -704,7 +724,7 @@ def run_case(case):
                                     detail=f'request {r} has no failure of its own but received {out[1]}; allowed {sorted(allowed)}'))
                 elif is_exc_code(out[1]) and out[1].startswith('E999'):
                     mon.append(dict(prop='C04', rule='wrong-exception',
-                                    detail=f'request {r} received {excs.get(r)!r}; allowed {sorted(allowed)}'))
+                                    detail=f'request {r} received {excs.get(r, (0, None))[1]}; allowed {sorted(allowed)}'))
                 mon.append(dict(prop='C02', rule='crosstalk',
                                 detail=f'request {r} received {out[1]}; its own outcomes are {sorted(allowed)}'))
         elif out[0] == 'timeout':
@@ -715,8 +735,7 @@ def run_case(case):
             if not q.get('bp') and q.get('timeout', FOREVER) >= FOREVER:
                 mon.append(dict(prop='C02', rule='unanswered', detail=f'request {r} (no backpressure, unbounded) got ServerBacklogFull'))
     # C04: original type / args are part of the value code; the traceback must name the failure site
-    for r, e2 in excs.items():
-        problem = check_traceback(e2)
+    for r, (problem, _rep) in excs.items():
         if problem:
             mon.append(dict(prop='C04', rule='traceback', detail=f'request {r}: {problem}'))
     # stream order
@@ -799,8 +818,7 @@ def node_traces(nodes, w, qlog):
             rec['uids'] = us
             acts[path].append(('start' if op == 'call' else 'finish') + ' ' + (','.join(map(str, us)) or '-'))
             continue
-        u, y = item
-        code = enc(y)
+        u, code, idv = item
         if op == 'put':
             if q in w['qin']:
                 acts[w['qin'][q]].append(f'arrive {u} {code}')
@@ -830,7 +848,7 @@ def node_traces(nodes, w, qlog):
                 p = w['qin'][q]
                 if nodes[p]['kind'] == 'w':
                     acts[p].append(f'take {u}')
-                    uid_of[(p, id(y))] = u      # the object handed to `call` is the one taken from the queue
+                    uid_of[(p, idv)] = u      # the object handed to `call` is the one taken from the queue
                 else:
                     acts[p].append(f'enq {u}')
             if q in w['mo']:
